@@ -21,12 +21,17 @@ package mem
 //@   at call store.Alerts).Set assert [non-overlapping-stored-as-sent] !(ret1("store.Alerts).Get") == nil && overlaps(alerts[rangeindex1 + 1], ret("store.Alerts).Get"))) ==> arg1 == alerts[rangeindex1 + 1]
 //@   at call Alert).Merge assert [merge-with-stored] arg0 == ret("store.Alerts).Get") && arg1 == alerts[rangeindex1 + 1]
 //@   ensures [every-alert-looked-at] count("store.Alerts).Get") == len(alerts)
+//@   at call PreStore assert [existing-means-found-in-store] arg2 == (ret1("store.Alerts).Get") == nil)
+//@   at call PostStore assert [existing-means-found-in-store-post] arg2 == (ret1("store.Alerts).Get") == nil)
+//@   ensures [every-stored-alert-is-announced] count("PostStore") == countnil0("store.Alerts).Set") && count("store.Alerts).Set") == countnil0("PreStore")
 //@   ensures [every-stored-alert-offered-to-every-subscriber] count("select") == count("PostStore") * len(a.listeners)
 //@   at call store.Alerts).Get assert [fan-out-of-the-previous-alert-complete] count("select") == count("PostStore") * len(a.listeners)
 //@   ensures [best-effort] result == nil
 //@   loop 1 invariant rangeindex < len(alerts) && count("store.Alerts).Get") == rangeindex + 1
+//@   loop 1 invariant count("PostStore") == countnil0("store.Alerts).Set") && count("store.Alerts).Set") == countnil0("PreStore")
 //@   loop 1 invariant a.listeners == old(a.listeners) && dom(a.listeners) == old(dom(a.listeners)) && count("select") == count("PostStore") * len(a.listeners) && count("PostStore") >= 0
 //@   loop 2 invariant a.listeners == old(a.listeners) && dom(a.listeners) == old(dom(a.listeners)) && count("select") == (count("PostStore") - 1) * len(a.listeners) + len(visited) && count("PostStore") >= 1
+//@   loop 2 invariant count("PostStore") == countnil0("store.Alerts).Set") && count("store.Alerts).Set") == countnil0("PreStore")
 //@   loop 2 invariant (forall k int :: (k in visited) ==> (k in a.listeners)) && rangeindex1 + 1 < len(alerts) && count("store.Alerts).Get") == rangeindex1 + 2
 //@   noeffect store.Alerts).Get store.Alerts).Set Alert).Merge PreStore PostStore RecordEvent Inject EnableAlertNamesInMetrics
 //@   nosafe
